@@ -7,7 +7,7 @@
                   dead / caller-allocated / handed-over block
    chunks_ok    = every chunk stored through the jchuff.c STORE_BUFFER protocol is < BUFSIZE bytes *)
 From Coq Require Import List ZArith.
-From LJT Require Import gen.GenDest model.Dest model.WorstCase proofs.DestProofs proofs.DestLeak proofs.WorstCaseProofs.
+From LJT Require Import gen.GenDest model.Dest model.WorstCase proofs.DestProofs proofs.DestLeak proofs.DestChunk proofs.WorstCaseProofs.
 Import ListNotations.
 Local Open Scope Z_scope.
 
@@ -62,6 +62,17 @@ Theorem C13_no_leak : forall c hs, good_cfg c ->
   w_ok (run c hs) = true -> forallb hop_chunks_ok hs = true -> leaked (w_heap (run c hs)) = [].
 Proof. exact no_leak_all. Qed.
 Print Assumptions C13_no_leak.
+
+(* producers are arbitrary in a strong sense: the world after a call (heap contents, every malloc and
+   free event, result) depends on the produced BYTES only, not on how they were cut into chunks *)
+Theorem C13_chunking_irrelevant : forall c hs alloc ops1 ops2, good_cfg c ->
+  w_ok (run c (hs ++ [HCall alloc ops1])) = true -> forallb hop_chunks_ok hs = true ->
+  forallb chunk_ok ops1 = true -> forallb no_abort ops1 = true ->
+  forallb chunk_ok ops2 = true -> forallb no_abort ops2 = true ->
+  bytes_of ops1 = bytes_of ops2 ->
+  run c (hs ++ [HCall alloc ops1]) = run c (hs ++ [HCall alloc ops2]).
+Proof. exact chunking_irrelevant_all. Qed.
+Print Assumptions C13_chunking_irrelevant.
 
 (* the two destination managers of the tree are instances (cfg_tj reads the F2 rule from the source) *)
 Theorem C13_instances : good_cfg cfg_tj /\ good_cfg cfg_ijg.
